@@ -371,6 +371,12 @@ func (set *Set) add(hosts ...*Host) {
 		return
 	}
 	for _, host := range hosts {
+		// evict the previous host of the same address, otherwise it will be
+		// left in the healthy hosts when its type is different.
+		if old, ok := set.all[host.Addr]; ok && old != host {
+			old.markRemoved()
+			set.removeFromHealthy(old)
+		}
 		set.all[host.Addr] = host
 	}
 	set.addToHealthy(hosts...)
